@@ -730,6 +730,9 @@ type finding struct {
 	Signature string `json:"signature"`
 	Commit    string `json:"commit,omitempty"`
 	What      string `json:"what"`
+	// Tape (known findings): replay file, relative to the root, of the specific
+	// history that fails; it is replayed by every check of the property.
+	Tape string `json:"tape,omitempty"`
 }
 
 func loadFindings() []finding {
@@ -754,7 +757,8 @@ func loadFindings() []finding {
 func knownFinding(fs []finding, prop string, fr *failRec) *finding {
 	for i := range fs {
 		f := &fs[i]
-		if f.Status == "known" && f.Property == prop && f.Signature == fr.Class+"|"+fr.Sig {
+		// (a finding pinned by a tape is only ever matched by replaying that tape)
+		if f.Status == "known" && f.Tape == "" && f.Property == prop && f.Signature == fr.Class+"|"+fr.Sig {
 			return f
 		}
 	}
@@ -787,10 +791,42 @@ func check(spec *propSpec, b *build) int {
 			regressed++
 		}
 	}
+	// 1b. Known findings are pinned by the tape of the one history that fails;
+	// the search below stays away from exactly that history. A tape that still
+	// fails in the recorded way is announced and otherwise ignored; one that
+	// fails in another way is a violation like any other.
+	knownSeen := map[string]bool{}
+	for _, kf := range loadFindings() {
+		if kf.Status != "known" || kf.Property != spec.id || kf.Tape == "" || *flagNoRegress {
+			continue
+		}
+		fr, herr := replayOne(b, filepath.Join(root, kf.Tape))
+		if herr != "" {
+			a.harness = append(a.harness, "known-finding tape "+kf.Tape+": "+herr)
+			continue
+		}
+		a.counters["known-finding tapes replayed"]++
+		switch {
+		case fr == nil:
+			fmt.Printf("simcheck: the known finding pinned by %s no longer reproduces\n", kf.Tape)
+			a.counters["known findings that no longer reproduce"]++
+		case sameAsFinding(fr, kf.Signature):
+			if !knownSeen[kf.Signature] {
+				knownSeen[kf.Signature] = true
+				fmt.Printf("KNOWN-FINDING: property=%s %s\n", spec.id, kf.What)
+			}
+		default:
+			fr.Detail = "known-finding tape " + filepath.Base(kf.Tape) + " fails in another way than recorded: " + fr.Detail
+			a.fails = append(a.fails, fr)
+		}
+	}
 	// 2. The search (preceded by the determinism self-test of the simulator).
 	if regressed == 0 {
 		spec.search(spec, b, a)
-		if len(a.harness) == 0 {
+		if len(a.harness) == 0 && len(a.fails) == 0 {
+			// (a clean batch is only worth something if the simulator is
+			// deterministic; a failure is validated by replaying it in a fresh
+			// process instead)
 			if msg := runSelfTest(spec, b, a); msg != "" {
 				a.harness = append(a.harness, msg)
 			}
@@ -815,7 +851,7 @@ func check(spec *propSpec, b *build) int {
 	// 3. Verdicts.
 	known := loadFindings()
 	var violations []*failRec
-	seenKnown := map[string]bool{}
+	seenKnown := knownSeen
 	for _, fr := range a.fails {
 		if kf := knownFinding(known, spec.id, fr); kf != nil {
 			if !seenKnown[kf.Signature] {
@@ -1001,6 +1037,17 @@ func replayCmd(path string) int {
 // same racing code when the run is replayed in a fresh process (which earlier
 // access it remembers depends on shadow-memory history), so races are compared
 // by the set of functions the two accesses are in.
+// sameAsFinding compares a failure with the "class|signature" of a known
+// finding (races by the set of racing functions, so that line shifts do not
+// matter).
+func sameAsFinding(fr *failRec, signature string) bool {
+	i := strings.Index(signature, "|")
+	if i < 0 {
+		return false
+	}
+	return sameFailure(fr.Class, fr.Sig, signature[:i], signature[i+1:])
+}
+
 func sameFailure(class1, sig1, class2, sig2 string) bool {
 	if class1 != class2 {
 		return false
